@@ -113,7 +113,7 @@ def run_translator(ck):
     if rc != 0:
         return False
     # diagnostics for the generated obligations (the theorems of props/C05.v restate them)
-    txt = ("From Coq Require Import List String ZArith Bool.\nFrom Qryn Require Import model.IngestRobust gen.GenGoroutinesWriter.\n"
+    txt = ("From Coq Require Import List String ZArith Bool.\nFrom Qryn Require Import model.IngestRobust model.IngestPipe gen.GenGoroutinesWriter.\n"
            "Import ListNotations.\n"
            "Definition U := Eval vm_compute in map (fun g => (g_file g, g_func g, g_ord g, g_target g)) (unaccounted gen_goroutines).\nPrint U.\n"
            "Definition R := Eval vm_compute in forallb (recovering_present gen_goroutines) must_recover.\nPrint R.\n"
@@ -124,8 +124,18 @@ def run_translator(ck):
            "Definition G := Eval vm_compute in gen_ns_guard.\nPrint G.\n"
            "Definition S := Eval vm_compute in sites_safe gen_error_handler gen_untyped_error_sites.\nPrint S.\n"
            "Definition NS := Eval vm_compute in Z.of_nat (List.length gen_untyped_error_sites).\nPrint NS.\n"
-           "Definition NG := Eval vm_compute in Z.of_nat (List.length gen_goroutines).\nPrint NG.\n")
-    ok, out = ck.coq_make(["model/IngestRobust.vo", "gen/GenGoroutinesWriter.vo"])
+           "Definition NG := Eval vm_compute in Z.of_nat (List.length gen_goroutines).\nPrint NG.\n"
+           "Definition PP := Eval vm_compute in programs_eqb gen_parser_programs parser_programs_model.\nPrint PP.\n"
+           "Definition PT := Eval vm_compute in gsimples_eqb gen_tame_panic tame_model && gen_tame_guarded.\nPrint PT.\n"
+           "Definition PC := Eval vm_compute in consumer_eqb gen_consumer consumer_model.\nPrint PC.\n"
+           "Definition HO := Eval vm_compute in handler_ok gen_on_span_cols gen_spans_fields gen_attrs_fields gen_spans_consumed gen_attrs_consumed "
+           "&& Z.eqb gen_on_span_unknown 0 && hp_width_check gen_on_span_cols.\nPrint HO.\n"
+           "Definition FG := Eval vm_compute in gen_ffa_guard.\nPrint FG.\n"
+           "Definition RM := Eval vm_compute in routes_eqb gen_routes routes_model.\nPrint RM.\n"
+           "Definition RU := Eval vm_compute in map rt_handler (filter (fun r => negb (table_unambiguous (rt_parsers r))) gen_routes).\nPrint RU.\n"
+           "Definition RP := Eval vm_compute in map snd (filter (fun p => negb (is_some (find_route gen_routes (snd p)))) gen_paths).\nPrint RP.\n"
+           "Definition NP := Eval vm_compute in Z.of_nat (List.length gen_paths).\nPrint NP.\n")
+    ok, out = ck.coq_make(["model/IngestRobust.vo", "model/IngestPipe.vo", "gen/GenGoroutinesWriter.vo"])
     if not ok:
         ck.obligation("generated file compiles", False, out[-1500:])
         return False
@@ -153,7 +163,25 @@ def run_translator(ck):
     ck.obligation("no untyped error built under controller/ or utils/unmarshal/ can start with a text ErrorHandler prefix-matches, "
                   "and ErrorHandler has no substring test on error texts (client text inside an error cannot silence it)",
                   val("S") == "true", "sites_safe gen_error_handler gen_untyped_error_sites = " + val("S"))
+    ck.obligation("parser goroutines of unmarshal/builder.go (Do, doParseProfile, doParseLogs, doParseSpans) are the modelled programs: "
+                  "defer tamePanic; Decode; on error send+close+return; last batch; exactly one close",
+                  val("PP") == "true", "gen_parser_programs differs from parser_programs_model (see coq/gen/GenGoroutinesWriter.v): a changed send/close/defer "
+                  "in a parser goroutine -- run_prog over the generated program decides whether a decoder panic/error still ends in one close")
+    ck.obligation("tamePanic is `if err := recover(); err != nil { send the panic error; close }`", val("PT") == "true",
+                  "gen_tame_panic / gen_tame_guarded differ from tame_model")
+    ck.obligation("controller doParse ranges over the channel and every early return starts the drain goroutine", val("PC") == "true",
+                  "gen_consumer differs from consumer_model")
+    ck.obligation("onSpan appends every slice field of TempoSamples once per span and of TempoTag once per key, checks the id widths first, "
+                  "resets on flush; the span insert services read only those fields (batches_are_rectangular)", val("HO") == "true",
+                  "handler_ok over the generated onSpan = " + val("HO"))
+    ck.obligation("fastFillArray returns the empty slice for length 0 before res[0]", val("FG") == "true", "gen_ffa_guard = " + val("FG"))
+    ck.obligation("controller route tables (middleware, Content-Type keys, parsers, success status) are the modelled ones", val("RM") == "true",
+                  "gen_routes differs from routes_model")
+    ck.obligation("Content-Type dispatch over the parser map cannot depend on map iteration order (no key is a prefix of another)",
+                  val("RU") == "[]", "ambiguous tables: " + val("RU"))
+    ck.obligation("every path registered in router/*.go with a request pipeline has a modelled route", val("RP") == "[]", "paths without route: " + val("RP"))
     ck.extra["goroutines_in_writer"] = val("NG")
+    ck.extra["ingest_paths_in_router"] = val("NP")
     ck.extra["untyped_error_sites"] = val("NS")
     try:
         ck.extra["error_text_phrases_from_source"] = json.load(open(PHRASES))["phrases"]
